@@ -254,7 +254,15 @@ def oracle(ctx):
                                             oracle_expectation=f'the documented spelling {sp!r} reads back as {s!r}'))
     # through the unit API: a single-valued key written with a spelling is looked up as the string
     rnd = ctx.rnd
-    sel = [p for p in pairs if '\n' not in p[1] and p[1] == p[1].strip() and not p[1].endswith('\\')][:1500 if ctx.thorough else 400]
+    sel_all = [p for p in pairs if '\n' not in p[1] and p[1] == p[1].strip() and not p[1].endswith('\\')]
+    # items separated by TAB (a quoted item may follow a tab as well as a blank), in several spellings each
+    for s_ in ('web\tfront end', 'sh -c\texit 0', 'a\t b c', 'x\t\ty z', 'k=v\tw x', 'a b\tc d'):
+        for _ in range(6):
+            sp_ = spell(rnd, s_)
+            if sp_ == sp_.strip() and '\n' not in sp_:
+                sel_all.append((s_, sp_))
+    n_sel = 1500 if ctx.thorough else 400
+    sel = sel_all[:n_sel // 2] + rnd.sample(sel_all[n_sel // 2:], min(len(sel_all) - n_sel // 2, n_sel // 2)) + sel_all[-36:]
     ops = []
     for s, sp in sel:
         ops.append('unit\tload\t' + hx(f'[Container]\nImage={sp}\n') + '\tlookup\t' + hx('Container') + '\t' + hx('Image')
